@@ -19,8 +19,15 @@ META = {
 }
 
 THEOREMS = [
-    'Scalibr.Parsers.C03_apk', 'Scalibr.Parsers.C03_gradle',
-    'Scalibr.Parsers.scan_unlines',
+    # (a) byte-level round trips: parse (render layout records) = ok (installed records), all record lists x all layouts
+    'Scalibr.Parsers.C03_apk', 'Scalibr.Parsers.C03_gradle', 'Scalibr.Parsers.C03_gemfile', 'Scalibr.Parsers.C03_dpkg',
+    'Scalibr.Parsers.C03_requirements',
+    # byte-to-line lemmas (bufio.Scanner / bufio.Reader.ReadLine on every LF/CRLF/final-newline layout)
+    'Scalibr.Parsers.scan_unlines', 'Scalibr.Parsers.Dpkg.rlines_unlines',
+    # (b) record loop over the decoded document = comprehension, unique keys / no duplicates
+    'Scalibr.Lockfiles.C03_packagelock', 'Scalibr.Lockfiles.C03_packagelock_exact', 'Scalibr.Lockfiles.C03_composer',
+    'Scalibr.Lockfiles.C03_cargo', 'Scalibr.Lockfiles.C03_poetry', 'Scalibr.Lockfiles.C03_pipfile',
+    'Scalibr.Lockfiles.C03_pkgslock', 'Scalibr.Lockfiles.C03_gomod',
 ]
 
 def _names(lst):
@@ -57,7 +64,7 @@ def run(ctx):
     proofs_ok = ctx.audit(['Scalibr.Properties.C03'], THEOREMS)
     if ctx.tier == 'thorough':
         proofs_ok = ctx.leanchecker('Scalibr.Properties.C03') and proofs_ok
-    n = {'quick': 250, 'thorough': 3000}[ctx.tier]
+    n = {'quick': 250, 'thorough': 12000}[ctx.tier]
 
     def nontrivial(case, fi, fm):
         t = case.split(' ')
@@ -88,6 +95,8 @@ def run(ctx):
         f = k.split('/')[0]
         per[f] = per.get(f, 0) + v
     ctx.extra['cases_per_format'] = per
-    ctx.extra['formats_with_bytes_level_roundtrip_theorem'] = ['apk', 'gradle']
+    ctx.extra['formats_with_byte_level_roundtrip_theorem'] = ['apk', 'gradle', 'gemfile', 'dpkg', 'requirements (core: no markers / per-requirement options / continuations)']
+    ctx.extra['formats_with_record_loop_theorem_on_decoded_document'] = ['package-lock.json v1-v3', 'composer.lock', 'Cargo.lock', 'poetry.lock', 'Pipfile.lock', 'packages.lock.json', 'go.mod']
+    ctx.extra['differential_only'] = 'byte layouts (indentation, key order, CRLF, unrelated fields) of the seven decoded formats; requirements.txt markers, hashes, continuations'
     if not proofs_ok:
         lib.proof_failed(ctx, 'Scalibr.Properties.C03')
